@@ -1316,3 +1316,11 @@ ASSUMPTIONS = ['the facts state equations between constants; that a modulus is p
                'GENERATOR is only shown to be a quadratic non-residue (what the 2-adic root derivation and sqrt need), '
                'not a generator of the full multiplicative group (needs the factorisation of p-1)']
 HYPOTHESES = []
+
+
+# coqchk (thorough tier): the per-configuration Facts_*.v files are closed facts established by vm_compute over Bignums; the
+# independent checker has no VM and re-checks them by lazy reduction (> 50 minutes, measured), so it is pointed at the
+# generic part of the package (the check functions, their specifications and the model specs) instead; the Facts files are
+# checked by the coqc kernel (vm_compute) on every run and their assumptions (Uint63 primitives only) by Print Assumptions.
+COQCHK_MODULES = ['V.C16.ConfigChecks', 'V.C16.ConfigSpecs', 'V.C16.ModelSpecs']
+COQCHK_TIMEOUT = 1200
